@@ -1,10 +1,10 @@
 #!/bin/bash
-# runs every seeded mutant against the check of its own property; results appended to build/mutation-results.txt
+# runs every seeded mutant against the check of its own property; results appended to seeded/latest-results.txt
 cd /verif
 for d in seeded/*/; do
   id=$(basename $d); prop=${id%%-*}
-  grep -q "^$id check=$prop " build/mutation-results.txt 2>/dev/null && continue
+  grep -q "^$id check=$prop " seeded/latest-results.txt 2>/dev/null && continue
   [ -f coq/Properties/$prop.v ] || export VERIF_DEV_NOPROOF=1
-  tools/run_mutant.sh $id $prop >> build/mutation-results.txt 2>&1
+  tools/run_mutant.sh $id $prop >> seeded/latest-results.txt 2>&1
   unset VERIF_DEV_NOPROOF
 done
